@@ -15,6 +15,7 @@ for p in props:
         na.append({"property_id": pid, "reason": NA.get(pid, "no check registered yet: the Lean model and its tie for this property are not built in this revision")})
         continue
     m = importlib.import_module("checks." + pid).META
+    assert m["level"] in ("exploration", "fault_enumeration", "model_checking", "proof", "translation_validation", "other"), (pid, m["level"])
     checks.append({
         "property_id": pid,
         "quick_cmd": "./check %s --tier quick" % pid,
